@@ -39,6 +39,14 @@ def selfcheck() -> int:
     for fn in prog.fns:
         if "context" in fn.params and fn.cls is not None and fn.cls.name == "Context":
             raise AnalysisError(f"{fn.key}: parameter named 'context' inside Context")
+    # the normalisation pre-pass (sa/inline.py) preserves behaviour on its own fixtures, and reports on this tree
+    from .selftest_inline import run as inline_selftest
+    try:
+        n_inl = inline_selftest()
+    except AssertionError as e:
+        raise AnalysisError(str(e))
+    for line in getattr(prog, "inline_report", []):
+        print("selfcheck: inline:", line)
     cat = catalogue(prog)
     es = emission_sites(prog)
     if len(es) < 150:
@@ -46,5 +54,5 @@ def selfcheck() -> int:
     print(f"selfcheck OK: {len(prog.mods)} modules, {len(prog.classes)} classes, {len(prog.fns)} functions, "
           f"{len(rm.primaries)} primaries, {len(rm.checks)} checks, {len(cat)} catalogue codes, "
           f"{len(es)} emission sites, {len(cg.calls)} call sites ({len(cg.unresolved)} unresolved: "
-          f"{sorted({ast.unparse(n.func) for _, n in cg.unresolved})})")
+          f"{sorted({ast.unparse(n.func) for _, n in cg.unresolved})}); inliner self-test {n_inl} cases")
     return 0
